@@ -561,3 +561,46 @@ def rf91(run):
                           'alloca register or the register lent by the first inlined callee): an assignment to it before the next inlined '
                           'call makes the address wrong', line=u['l'])
     return n
+
+
+# ---------------------------------------------------------------------------------------------
+# RF98: inside the inlining loop code is only placed inside the bracket of the call being inlined
+# ---------------------------------------------------------------------------------------------
+
+def rf98(run):
+    rule = 'RF98'
+    run.rule(rule, 'process_inlines: the size accounting of the merged top alloca (curr_func_top_alloca_size, anchors / alloca_sizes stack) is '
+                   'valid between the inlined call and its anchor.  Inside the main loop every instruction inserted into the caller goes '
+                   'in front of the anchor, behind the call, or next to the top alloca / head instruction; callee code meant for the end of '
+                   'the function (cold code) is collected and appended after the loop, where its calls are no longer inlined with a stale '
+                   'alloca offset')
+    tu = run.tu('mir')
+    f = tu.func('process_inlines')
+    run.functions_analysed.add(('mir', f.name))
+    loops = [l for l in f.walk() if l['k'] == 'ForStmt' and l['c'][0] is not None and 'head_func_insn' in F.src(l['c'][0])]
+    if len(loops) != 1:
+        raise F.AnalysisBroken('process_inlines: main loop not found')
+    body = loops[0]['c'][3]
+    n = 0
+    ALLOWED_ANCHORS = ('anchor', 'call', 'func_top_alloca', 'head_func_insn', 'ret_label', 'after_ret_label')
+    for x in F.walk(body):
+        if x['k'] != 'CallExpr':
+            continue
+        c = x.get('callee')
+        if c in ('MIR_append_insn', 'MIR_prepend_insn'):
+            n += 1
+            run.ob(rule, (x['l'],), False)
+            run.violation(rule, f, '%s inside the inlining loop' % c, '`%s` puts code at the %s of the caller while the loop is still inlining: a call '
+                          'in that code is inlined later with the alloca offset of whatever bracket is current then, so two live frames share '
+                          'one area of the merged alloca' % (F.src(x)[:70], 'end' if c == 'MIR_append_insn' else 'start'), line=x['l'])
+        elif c in ('MIR_insert_insn_before', 'MIR_insert_insn_after'):
+            a = F.src(F.strip(F.call_args(x)[2]))
+            n += 1
+            ok = a in ALLOWED_ANCHORS
+            run.ob(rule, (x['l'],), ok, {'site': '%s:%d' % (f.relfile(), x['l']), 'position': '%s %s' % (c[16:], a)} if n % 6 == 1 or not ok else None)
+            if not ok:
+                run.violation(rule, f, 'insertion relative to %s' % a, '`%s` inserts code relative to `%s`, which is not inside the bracket of the '
+                              'call being inlined' % (F.src(x)[:70], a), line=x['l'])
+    if n < 8:
+        raise F.AnalysisBroken('process_inlines: only %d insertions found in the main loop' % n)
+    return n
